@@ -281,6 +281,16 @@ def final_key(key, cands):
 
 
 # ------------------------------------------------------------------------------------------------ executing histories
+
+def _run(cmd):
+    """subprocess.run, retried while libsimgrid is being relinked by somebody else's bin/check (loader error, exit 127)"""
+    for attempt in range(12):
+        r = subprocess.run(cmd, stdout=subprocess.PIPE, stderr=subprocess.PIPE, text=True)
+        if r.returncode != 127 or "libsimgrid" not in r.stderr:
+            return r
+        time.sleep(10)
+    return r
+
 def write_platform(d):
     open(os.path.join(d, "content.txt"), "w").write("/a %d\n" % PRE)
     xml = os.path.join(d, "plat.xml")
@@ -316,7 +326,7 @@ def execute(exe, xml, paths, tag):
     open(tf, "w").write("".join(";".join(p) + "\n" for p in paths))
     first = 0
     while first < len(paths):
-        r = subprocess.run([exe, xml, tf, str(first), "--log=root.thres:critical"], stdout=subprocess.PIPE, stderr=subprocess.PIPE, text=True)
+        r = _run([exe, xml, tf, str(first), "--log=root.thres:critical"])
         last = first - 1
         for line in r.stdout.splitlines():
             last, pre, post = _parse(line)
@@ -336,7 +346,7 @@ def execute_fresh(exe, xml, path, tag):
     """one history alone in a fresh process -> ([(pre, post) per step], exit status)"""
     tf = os.path.join(os.path.dirname(xml), "one-%s-%d.txt" % (tag, os.getpid()))
     open(tf, "w").write(";".join(path) + "\n")
-    r = subprocess.run([exe, xml, tf, "0", "steps", "--log=root.thres:critical"], stdout=subprocess.PIPE, stderr=subprocess.PIPE, text=True)
+    r = _run([exe, xml, tf, "0", "steps", "--log=root.thres:critical"])
     os.unlink(tf)
     if r.returncode in (3, 4):
         common.log("c46x failed: " + r.stderr[-2000:])
